@@ -6,8 +6,8 @@ namespace Gen
 
 namespace c06hybrid.DefaultConfig
 def PersistentPrefixes : List String := ["tunnox:user:", "tunnox:client:", "tunnox:config:client:", "tunnox:persist:client:config:", "tunnox:persist:clients:list", "tunnox:mapping:", "tunnox:persist:mapping:", "tunnox:persist:mappings:list", "tunnox:stats:persistent:"]
-def SharedPrefixes : List String := ["tunnox:conn_state:", "tunnox:client_conn:", "tunnox:tunnel_waiting:", "tunnox:node:", "tunnox:runtime:conncode:", "tunnox:index:conncode:target:", "tunnox:id:", "tunnox:runtime:client:state:", "tunnox:http_domain:index:", "tunnox:http_domain:next_id", "tunnox:http_domain:deleting:"]
-def SharedPersistentPrefixes : List String := ["tunnox:client_mappings:", "tunnox:user_mappings:", "tunnox:port_mapping:", "tunnox:mappings:list", "tunnox:http_domain:mapping:", "tunnox:http_domain:client:", "webhook:", "webhooks:", "webhook_log:", "webhook_logs:"]
+def SharedPrefixes : List String := ["tunnox:conn_state:", "tunnox:client_conn:", "tunnox:tunnel_waiting:", "tunnox:node:", "tunnox:runtime:conncode:", "tunnox:index:conncode:target:", "tunnox:id:", "tunnox:runtime:client:state:", "tunnox:http_domain:index:", "tunnox:http_domain:next_id", "tunnox:http_domain:deleting:", "lock:"]
+def SharedPersistentPrefixes : List String := ["tunnox:client_mappings:", "tunnox:user_mappings:", "tunnox:port_mapping:", "tunnox:mappings:list", "tunnox:http_domain:mapping:", "tunnox:http_domain:client:", "tunnox:http_domain:mappings:list", "webhook:", "webhooks:", "webhook_log:", "webhook_logs:"]
 end c06hybrid.DefaultConfig
 
 namespace conncode.DefaultConfig
